@@ -165,7 +165,7 @@ class TrimeshPolyhedron(Domain):
 
     def _contains(self, points, params=Points.empty()):
         if isinstance(points, Points):
-            points = points.as_tensor
+            points = points[:, list(self.space.keys())].as_tensor
         inside = self.mesh.contains(points).reshape(-1, 1)
         return torch.tensor(inside)
 
@@ -232,7 +232,7 @@ class TrimeshBoundary(BoundaryDomain):
         super().__init__(domain)
 
     def _contains(self, points, params=Points.empty()):
-        points = points.as_tensor
+        points = points[:, list(self.space.keys())].as_tensor
         distance = trimesh.proximity.signed_distance(self.domain.mesh, points)
         abs_dist = torch.absolute(torch.tensor(distance))
         on_bound = abs_dist <= self.domain.tol
